@@ -112,7 +112,7 @@ FracChars(r, d) == IF r = 0 THEN <<>> ELSE <<DigitChar((r * 10) \div d)>> \o Fra
 UnkStr == <<"?unk">>   \* marker for "not determined by the specification"
 NumToStr(a) ==
   CASE a.c = "nan" -> <<"N", "a", "N">>
-    [] a.c = "unk" -> UnkStr
+    [] a.c \in {"unk", "pow2"} -> UnkStr     \* (a pow2 is printed through the "numstr" obligation, see XPath!string)
     [] a.c = "inf" -> (IF a.s = -1 THEN <<"-">> ELSE <<>>) \o <<"I", "n", "f", "i", "n", "i", "t", "y">>
     [] a.c = "zero" -> <<"0">>
     [] OTHER -> IF ~IsPow2(a.d) THEN UnkStr
